@@ -395,9 +395,13 @@ class Weaver:
         w.counts["asserts"] = nassert
 
         # unit-local rewrites (R6 closure annotation, R7 adapter stubs, R11 operator desugar ...)
-        for (frm, to, rid) in unit.rewrites:
+        for rw in unit.rewrites:
+            frm, to, rid = rw[0], rw[1], rw[2]
+            nth = rw[3] if len(rw) > 3 else None
             pat = [t.text for t in tokenize(expand(frm, ctx))]
             hits = _find_seq(toks, bo, bc + 1, pat)
+            if nth is not None:
+                hits = hits[nth - 1:nth]
             # a rewrite whose pattern no longer occurs has nothing to rewrite: the text goes to Verus as it is (if what
             # replaced the pattern is outside Verus's subset the file is rejected by the front end => undecided, never an alarm)
             if not hits:
